@@ -170,6 +170,29 @@ func oracleC13CLI(p *Pair, env *Env, a [][]byte) *Failure {
 	if f := c13CheckOutput(ruleId, in, got); f != nil {
 		return f
 	}
+	{
+		// the argument in its file-name form, given from a working directory that holds a file of that very name (a copy,
+		// another checkout): the file below the root is the one addressed, the other one is not touched
+		sb3 := mkSandbox(env)
+		defer os.RemoveAll(sb3)
+		_ = tree.write(sb3)
+		elsewhere := filepath.Join(sb3, "elsewhere")
+		_ = os.MkdirAll(elsewhere, 0o755)
+		decoy := append([]byte("  - test_id: 41\n  - test_id: 41\n"), in...)
+		_ = os.WriteFile(filepath.Join(elsewhere, ruleId+ext), decoy, 0o644)
+		c3 := runCLI(env, elsewhere, nil, "-l", "disabled", "-d", sb3, "util", "renumber-tests", ruleId+ext)
+		got3, _ := os.ReadFile(filepath.Join(sb3, rel))
+		dec3, _ := os.ReadFile(filepath.Join(elsewhere, ruleId+ext))
+		if !bytes.Equal(dec3, decoy) {
+			return &Failure{What: "renumber-tests rewrote a file of the same name in the working directory, outside the tests directory of the root", Detail: fmt.Sprintf("exit %d", c3.exit)}
+		}
+		if c3.exit == 0 {
+			if f := c13CheckOutput(ruleId, in, got3); f != nil {
+				f.What = "renumber-tests " + ruleId + ext + " from another working directory: " + f.What
+				return f
+			}
+		}
+	}
 	c = runCLI(env, sb, nil, "-l", "disabled", "util", "renumber-tests", "-c", ruleId)
 	if c.exit != 0 {
 		return &Failure{What: "renumber-tests --check fails right after renumber-tests", Detail: fmt.Sprintf("file %q", got)}
